@@ -543,3 +543,8 @@ def check(model, rep, tier):
     normalisation_clause(model, rep, funcs)
     finite_clause(model, rep, funcs)
     refinement_callers_clause(model, rep, funcs)
+    from .generic import axis_convention_obligations, parallel_index_obligations, functions_in
+    axis_convention_obligations(model, rep, ["acryo/backend/_upsample.py", "acryo/backend/_zncc.py", "acryo/backend/_pcc.py", "acryo/backend/_fsc.py", "acryo/backend/_mesh.py"], "3 layout", floor=3)
+    for fn in functions_in(model, ["acryo/backend/_upsample.py", "acryo/backend/_zncc.py", "acryo/backend/_pcc.py", "acryo/backend/_fsc.py", "acryo/backend/_mesh.py"]):
+        parallel_index_obligations(model, rep, fn, "3 layout")
+    rep.floor("PAIR", 1, "(_get_phases pairs mesh[k] with out_shape[k])")
